@@ -168,16 +168,22 @@ def check_matrix(K, n):
     res = []
     for ctx, (ra, rb, cnt) in all_paths(Explorer([]), runner):
         obl = [("count == K", None if cnt == K else False)]
-        keys = sorted(ra)
-        if keys != [(i, j) for i in range(n) for j in range(i, n)]:
-            obl.append(("one accumulator per pair i <= j", False))
-        for (i, j) in keys:
+        # the obligations are on what covar_matrix reads - entry (i, j), i <= j, is rcs[(i, j)].C / rcs[(i, j)].count
+        # - not on how the accumulators are stored (extra or mirrored accumulators are the implementation's business)
+        for (i, j) in [(i, j) for i in range(n) for j in range(i, n)]:
+            if (i, j) not in ra or (i, j) not in rb:
+                obl.append(("entry (%d,%d): an accumulator exists" % (i, j), False))
+                continue
             Sx, Sy = z3.Sum(series[i]), z3.Sum(series[j])
             Sxy = z3.Sum([x * y for x, y in zip(series[i], series[j])])
             closed = Sxy - Sx * Sy / K
-            obl.append(("entry (%d,%d): count == K" % (i, j), None if ra[(i, j)].f["count"] == K else False))
-            obl.append(("entry (%d,%d): C == closed form" % (i, j), neq(ra[(i, j)].f["C"], closed)))
-            obl.append(("entry (%d,%d): update_from_it == update" % (i, j), neq(rb[(i, j)].f["C"], ra[(i, j)].f["C"])))
+            for nm, r in (("update", ra), ("update_from_it", rb)):
+                c = r[(i, j)].f["count"]
+                if not pyz3.is_z3(c) and c == 0:
+                    obl.append(("entry (%d,%d) fed by %s: count > 0" % (i, j, nm), False))
+                    continue
+                obl.append(("entry (%d,%d) fed by %s: C / count == whole-sample covariance" % (i, j, nm),
+                            neq(to_real(r[(i, j)].f["C"]) / to_real(c), closed / K)))
         res.append(discharge(ctx, obl, [v for s in series for v in s]))
     return merge(res)
 
@@ -497,14 +503,22 @@ def replay_fail(K, kind, witness):
             if n > 8:
                 return False, "cannot split the witness"
         series = [vals[i * K:(i + 1) * K] for i in range(n)]
-        rcm = u.RunningCovarianceMatrix(n)
-        rcm.update_from_it(*series)
-        try:
-            cm = rcm.covar_matrix
-            ref = np.cov(np.array(series), bias=True) if K > 1 else np.zeros((n, n))
-            scale = 1 + max(abs(v) for v in vals) ** 2
-            bad = rcm.count != K or bool((abs(cm - ref) > 1e-6 * scale).any())
-            return bad, "count=%s covar_matrix=%s vs numpy %s" % (rcm.count, cm.tolist(), np.asarray(ref).tolist())
-        except Exception as e:  # noqa
-            return True, "raises %s: %s" % (type(e).__name__, e)
+        ref = np.cov(np.array(series), bias=True) if K > 1 else np.zeros((n, n))
+        scale = 1 + max(abs(v) for v in vals) ** 2
+        for how in ("update_from_it", "update"):
+            rcm = u.RunningCovarianceMatrix(n)
+            try:
+                if how == "update":
+                    for k in range(K):
+                        rcm.update(*[sr[k] for sr in series])
+                else:
+                    rcm.update_from_it(*series)
+                cm = rcm.covar_matrix
+                bad = rcm.count != K or bool((abs(cm - ref) > 1e-6 * scale).any())
+            except Exception as e:  # noqa
+                return True, "fed by %s: raises %s: %s" % (how, type(e).__name__, e)
+            if bad:
+                return bad, "fed by %s: count=%s covar_matrix=%s vs numpy %s" % (
+                    how, rcm.count, cm.tolist(), np.asarray(ref).tolist())
+        return False, "count=%s covar_matrix=%s vs numpy %s" % (rcm.count, cm.tolist(), np.asarray(ref).tolist())
     return False, "no real replay for kernel %s" % kind
